@@ -16,7 +16,7 @@ META = dict(
 
 def tasks(tier):
     from vf.core import Task
-    return [Task('props.wire:run', name='C09/wire.c09_check_other_folding', fname='c09_check_other_folding', timeout=300), Task('props.wire:run', name='C09/wire.c09_misid', fname='c09_misid', timeout=300)] + [Task('props.wire:run', name='C09/wire.fold.ns' + '_'.join(map(str, ns)), fname='c09_fold', kwargs=dict(ns=list(ns)), timeout=600) for ns in ([(4,), (5,), (2, 3)] + ([(7,), (8,), (3, 3), (2, 1, 2)] if tier == 'thorough' else []))] + bounded_tasks('C09', tier)
+    return [Task('props.wire:run', name='C09/wire.c09_check_other_folding', fname='c09_check_other_folding', timeout=300), Task('props.wire:run', name='C09/wire.c09_misid', fname='c09_misid', timeout=300), Task('props.wire:run', name='C09/wire.c09_operators', fname='c09_operators', timeout=300)] + [Task('props.wire:run', name='C09/wire.fold.ns' + '_'.join(map(str, ns)), fname='c09_fold', kwargs=dict(ns=list(ns)), timeout=600) for ns in ([(4,), (5,), (2, 3)] + ([(7,), (8,), (3, 3), (2, 1, 2)] if tier == 'thorough' else []))] + bounded_tasks('C09', tier)
 
 
 MANIFEST_ENTRY = dict(
